@@ -101,6 +101,7 @@ func msgClass(m string) string {
 //	moved:<kinds>               same messages at different positions (other than the above)
 //	content:<kinds>             different sets of messages
 //	stdout                      same diagnostics, different rendered bytes
+//
 // lastDiffAllCallee / lastDiffMsgs describe the last difference firstDiff classified: whether all
 // differing diagnostics are about a local callee's own defects, and their messages.
 var (
